@@ -219,11 +219,20 @@ class OriginZero(E2Contract):
         out = []
         for s in (["1q", "1qt"] + (["2q"] if tier == "thorough" else [])):
             out += [(s, "state", 0), (s, "povm", 2), (s, "povm", 3), (s, "gate", 0), (s, "mprocess", 2), (s, "mprocess", 3)]
+        out += [("2q", "povm-tensor", 6)] + ([("qxqt", "povm-tensor", 6)] if tier == "thorough" else [])
         return out
 
     def inputs(self, W, cfg, mk):
         c_sys = make_csys(W, cfg[0])
         kind, m = cfg[1], cfg[2]
+        if kind == "povm-tensor":
+            # a POVM on two subsystems built by tensor_product: local outcome counts [2, 3]
+            from .C07_all import esys, single
+            dims = (2, 2) if cfg[0] == "2q" else (2, 3)
+            es = [esys(W, k, d) for k, d in enumerate(dims)]
+            pa = obj_povm(W, mk, single(W, es[0]), 2, "pa")
+            pb = obj_povm(W, mk, single(W, es[1]), 3, "pb")
+            return dict(obj=W.mod("quara.objects.operators").tensor_product(pa, pb))
         if kind == "state":
             o = obj_state(W, mk, c_sys)
         elif kind == "povm":
@@ -250,7 +259,7 @@ class OriginZero(E2Contract):
         ident = np.eye(d, dtype=np.complex128)
         if kind == "state":
             cl.append(eq("origin-denotes-I/d", S.op_from_vec(c_sys, out[0][0]), ident / d, "origin state denotes I/d"))
-        elif kind == "povm":
+        elif kind in ("povm", "povm-tensor"):
             for x in range(m):
                 cl.append(eq(f"origin-denotes-I/m[{x}]", S.op_from_vec(c_sys, out[0][x]), ident / m, "origin POVM element denotes I/m"))
         else:
